@@ -157,6 +157,13 @@ struct Dumper
                 for (uint32_t i = 1; i < e.get_size() && i < ft.size(); ++i) arg(ctx, "fun", callee, i - 1, ft[i], e[i]);
             }
         }
+        if (k == SPAWN && e.get_size() >= 1 && e[0].get_symbol() != symbol_t()) {
+            // `spawn T(args)`: every argument against the parameter of the dynamic template (TypeChecker: checkSpawnParameterCompatible)
+            if (template_t* temp = doc.find_dynamic_template(e[0].get_symbol().get_name()); temp != nullptr) {
+                for (uint32_t i = 0; i + 1 < e.get_size() && i < temp->parameters.get_size(); ++i)
+                    arg(ctx, "fun", atom(e[0].get_symbol().get_name()), i, temp->parameters[i].get_type(), e[i + 1]);
+            }
+        }
         for (uint32_t i = 0; i < e.get_size(); ++i) walk(ctx, e[i], depth + 1);
     }
 
